@@ -479,6 +479,48 @@ pub fn run(args: &Args) -> Report {
             });
         report.merge(part);
     }
+    // every q-value of the grammar (0 .. 1 in thousandths, in its 1-, 2- and 3-decimal spellings):
+    // two concrete ranges whose qualities are adjacent, in both listing orders
+    {
+        let spell = |t: u32| -> Vec<String> {
+            let mut v = vec![format!("{}.{:03}", t / 1000, t % 1000)];
+            if t % 10 == 0 {
+                v.push(format!("{}.{:02}", t / 1000, (t % 1000) / 10));
+            }
+            if t % 100 == 0 {
+                v.push(format!("{}.{}", t / 1000, (t % 1000) / 100));
+            }
+            if t % 1000 == 0 {
+                v.push(format!("{}", t / 1000));
+            }
+            v
+        };
+        let leak = |s: String| -> &'static str { Box::leak(s.into_boxed_str()) };
+        let reg = vec![Enc::Json, Enc::Smile];
+        let rt = runtime(&reg);
+        let reg2 = vec![Enc::Smile, Enc::Json];
+        let rt2 = runtime(&reg2);
+        for t in 0..=1000u32 {
+            for a in spell(t) {
+                let qa = Q::Val(leak(a), t);
+                for d in [0u32, 1] {
+                    if t + d > 1000 {
+                        continue;
+                    }
+                    for b in spell(t + d).into_iter().take(1) {
+                        let qb = Q::Val(leak(b), t + d);
+                        let json = Item { range: Some(("application", "json")), extra_params: 0, q: qa };
+                        let smile = Item { range: Some(("application", "x-jackson-smile")), extra_params: 0, q: qb };
+                        check_list(&[json, smile], &reg, &rt, &mut report);
+                        check_list(&[smile, json], &reg2, &rt2, &mut report);
+                        let json2 = Item { range: Some(("application", "json")), extra_params: 0, q: qb };
+                        let smile2 = Item { range: Some(("application", "x-jackson-smile")), extra_params: 0, q: qa };
+                        check_list(&[json2, smile2], &reg, &rt, &mut report);
+                    }
+                }
+            }
+        }
+    }
     request_side(&mut report);
     report.sample("registry", json!(regs.iter().map(|r| r.iter().map(|e| e.content_type()).collect::<Vec<_>>()).collect::<Vec<_>>()));
     report.bound("max_accept_items", n);
